@@ -62,6 +62,21 @@ CHECKS["C05"] = dict(
     design="DESIGN.md §6 C05",
 )
 
+CHECKS["C07"] = dict(
+    category="exploration",
+    technique="exhaustive destination / fragmentation enumeration through the real client encoder and server parser (DET), explicit-state search over resolver histories (BX), loopback dialling through the real TcpProxyHandler (SEMI)",
+    text="Destinations {5 IPv4, 5 IPv6} x boundary ports, every domain length 1..=256 (ASCII and multi-byte UTF-8; 256 must be refused), almost-addresses and a port sweep (thorough: all 65536 ports x 3 address types) go through the real Client::create_proxy_stream on a pool-injected session and are decoded by the real server-side parser; the destination header is cut into <=3 data frames at every position; every resolve/age/clear history up to depth 3 (4) over 2 hosts x 2 ports on both resolver branches (trust-dns against a harness DNS stub, system resolver for localhost); every (name | literal, listener) pair incl. names containing the UDP magic string is dialled through the real handler and must arrive at the listener bound to exactly that address and port.",
+    note="Trusted: harness DNS stub and /etc/hosts; cache ageing through the H9 hook; loopback only; real time with timing-independent oracles for the SEMI part.",
+    design="DESIGN.md §6 C07",
+)
+CHECKS["C10"] = dict(
+    category="model_checking",
+    technique="deviation-bounded schedule exploration (DX) of the real Client::create_proxy_stream against a scripted server under virtual time, plus loopback cases through the real TcpProxyHandler (SEMI)",
+    text="Client half: 10 server behaviours (ok, error text, silence, duplicates, unknown id, session death by EOF/reset/Alert) x answer times {0, 1 s, 29.999 s, 30 s, 30.001 s, never} x {1 opener, 2 racing openers with every pair of behaviours} with <= 1 (2) scheduling deviations; the result must be the reference model's (first of answer / death / 30 s wins), carry the server's reason, and come at the right virtual time. Server half: peer versions {none,1,2,3} x {accepting, refusing, (thorough) black-holed} targets x {literal, name} x early data: exactly one SYNACK per SYN for v>=2, empty only when the target was really connected, none for older peers, no data frame before the SYNACK.",
+    note="Trusted: H4 accessor places an in-memory session in the real pool; scripted server; SEMI part runs one schedule per case in real time.",
+    design="DESIGN.md §6 C10",
+)
+
 NOT_YET = {
 }
 
